@@ -15,7 +15,7 @@ import al_astar as AL
 import genlib as G
 
 A = "routee-compass-core/src/algorithm/search/"
-OBLIGATIONS = ["run", "get_first_route", "same_path", "lemma_walk_prefix", "lemma_walk_join"]
+OBLIGATIONS = ["run", "get_first_route", "same_path", "lemma_walk_prefix", "lemma_walk_join", "lemma_walk_same_ids", "lemma_chained_join"]
 MUST_FAIL = ["vacuity_probe"]
 
 SHIMS = """
@@ -85,8 +85,10 @@ impl SearchAlgorithm {
     // ASSUMED (C01 / C04 of the underlying search; the glue run_vertex_oriented itself is not under contract)
     #[verifier::external_body]
     pub fn run_vertex_oriented(&self, src_id: VertexId, dst_id_opt: Option<VertexId>, query: &Value, direction: &Direction, si: &SearchInstance) -> (r: Result<SearchAlgorithmResult, SearchError>)
-        ensures r matches Ok(res) ==> (res.routes@.len() > 0 && dst_id_opt is Some ==> walk(&*si.directed_graph, src_id, dst_id_opt->Some_0, res.routes@[0]@)
-                    && forall|i: int| 0 <= i < res.routes@[0]@.len() ==> lets_through(&*si.frontier_model, (#[trigger] res.routes@[0]@[i]).edge_id))
+        ensures r matches Ok(res) ==> (res.routes@.len() > 0 && dst_id_opt is Some ==> (walk(&*si.directed_graph, src_id, dst_id_opt->Some_0, res.routes@[0]@)
+                    && (forall|i: int| 0 <= i < res.routes@[0]@.len() ==> lets_through(&*si.frontier_model, (#[trigger] res.routes@[0]@[i]).edge_id))
+                    // run_a_star builds every tree entry with perform_edge_traversal(edge, edge before it, state at the near vertex): the stored route is chained
+                    && chained(si, res.routes@[0]@)))
     { unimplemented!() }
 }
 impl SearchAlgorithmResult {
@@ -98,7 +100,28 @@ impl SearchAlgorithmResult {
 pub open spec fn has_loop(g: &Graph, route: Seq<EdgeTraversal>) -> bool {
     exists|i: int, j: int| 0 <= i < j < route.len() && edge_of(g, (#[trigger] route[i]).edge_id).src_vertex_id == edge_of(g, (#[trigger] route[j]).edge_id).src_vertex_id
 }
+pub uninterp spec fn fwd_trav(si: &SearchInstance, next: EdgeId, prev: Option<EdgeId>, st: Seq<StateVar>) -> EdgeTraversal;
+pub uninterp spec fn init_state(sm: &StateModel) -> Seq<StateVar>;
+pub open spec fn step_ok(si: &SearchInstance, prev0: Option<EdgeId>, st0: Seq<StateVar>, ids: Seq<EdgeId>, res: Seq<EdgeTraversal>, i: int) -> bool {
+    res[i].edge_id == ids[i] && res[i] == fwd_trav(si, ids[i], if i == 0 { prev0 } else { Some(ids[i - 1]) }, if i == 0 { st0 } else { res[i - 1].result_state@ })
+}
+pub open spec fn reoriented(si: &SearchInstance, prev0: Option<EdgeId>, st0: Seq<StateVar>, ids: Seq<EdgeId>, res: Seq<EdgeTraversal>) -> bool {
+    &&& res.len() == ids.len()
+    &&& forall|i: int| 0 <= i < res.len() ==> #[trigger] step_ok(si, prev0, st0, ids, res, i)
+}
+pub open spec fn rev_ids(rb: Seq<EdgeTraversal>) -> Seq<EdgeId> { Seq::new(rb.len(), |i: int| rb[rb.len() - 1 - i].edge_id) }
+pub open spec fn last_id(fr: Seq<EdgeTraversal>) -> Option<EdgeId> { if fr.len() == 0 { None } else { Some(fr.last().edge_id) } }
+pub open spec fn last_state(si: &SearchInstance, fr: Seq<EdgeTraversal>) -> Seq<StateVar> { if fr.len() == 0 { init_state(&*si.state_model) } else { fr.last().result_state@ } }
+/// C03 / C13 "correctly accumulated state": from its second edge on, every edge of the route is the traversal of that edge after the edge
+/// actually before it, from the state that edge left
+pub open spec fn link_ok(si: &SearchInstance, r: Seq<EdgeTraversal>, j: int) -> bool { r[j] == fwd_trav(si, r[j].edge_id, Some(r[j - 1].edge_id), r[j - 1].result_state@) }
+pub open spec fn chained(si: &SearchInstance, r: Seq<EdgeTraversal>) -> bool { forall|j: int| 1 <= j < r.len() ==> #[trigger] link_ok(si, r, j) }
 pub mod bidirectional_ops { use super::*;
+    // contract PROVED on the real function in unit c13_single_via
+    #[verifier::external_body]
+    pub fn reorient_reverse_route(fwd_route: &[EdgeTraversal], rev_route: &[EdgeTraversal], si: &SearchInstance) -> (r: Result<Vec<EdgeTraversal>, SearchError>)
+        ensures r matches Ok(res) ==> reoriented(si, last_id(fwd_route@), last_state(si, fwd_route@), rev_ids(rev_route@), res@)
+    { unimplemented!() }
     // contract PROVED on the real function in unit c13_single_via
     #[verifier::external_body]
     pub fn route_contains_loop(route: &[EdgeTraversal], si: &SearchInstance) -> (r: Result<bool, SearchError>)
@@ -109,8 +132,12 @@ pub mod bidirectional_ops { use super::*;
 /// `p.iter().take(n).collect_vec()`: references to the first min(n, len) elements
 #[verifier::external_body] pub fn verif_take_refs<'a>(p: &'a Vec<EdgeTraversal>, n: usize) -> (r: Vec<&'a EdgeTraversal>)
     ensures derefs(r@) == p@.take(if n <= p@.len() { n as int } else { p@.len() as int }) { unimplemented!() }
-/// `root.into_iter().chain(spur).cloned().collect_vec()`
-#[verifier::external_body] pub fn verif_chain_cloned(a: Vec<&EdgeTraversal>, b: &Vec<EdgeTraversal>) -> (r: Vec<EdgeTraversal>) ensures r@ == derefs(a@) + b@ { unimplemented!() }
+/// `root_path.iter().map(|e| (*e).clone()).collect_vec()`
+#[verifier::external_body] pub fn verif_clone_refs(a: &Vec<&EdgeTraversal>) -> (r: Vec<EdgeTraversal>) ensures r@ == derefs(a@) { unimplemented!() }
+/// `spur_path.iter().rev().cloned().collect_vec()`
+#[verifier::external_body] pub fn verif_rev_cloned(a: &Vec<EdgeTraversal>) -> (r: Vec<EdgeTraversal>) ensures r@ == a@.reverse() { unimplemented!() }
+/// `a.into_iter().chain(b).collect_vec()`
+#[verifier::external_body] pub fn verif_chain(a: Vec<EdgeTraversal>, b: Vec<EdgeTraversal>) -> (r: Vec<EdgeTraversal>) ensures r@ == a@ + b@ { unimplemented!() }
 /// `v.iter().collect_vec()`
 #[verifier::external_body] pub fn verif_refs<'a>(v: &'a Vec<EdgeTraversal>) -> (r: Vec<&'a EdgeTraversal>) ensures derefs(r@) == v@ { unimplemented!() }
 /// `refs.iter().map(|e| e.total_cost()).sum()`
@@ -148,6 +175,33 @@ pub proof fn lemma_walk_join(g: &Graph, a: VertexId, b: VertexId, c: VertexId, p
     }
     assert(w[0] == p[0]);
     if q.len() > 0 { assert(w.last() == q.last()); } else { assert(w =~= p); }
+}
+
+/// a walk is a property of the edge ids
+pub proof fn lemma_walk_same_ids(g: &Graph, a: VertexId, b: VertexId, q: Seq<EdgeTraversal>, q2: Seq<EdgeTraversal>)
+    requires walk(g, a, b, q), q2.len() == q.len(), forall|i: int| 0 <= i < q.len() ==> (#[trigger] q2[i]).edge_id == q[i].edge_id
+    ensures walk(g, a, b, q2)
+{
+    assert forall|i: int| 0 <= i < q2.len() implies has_edge(g, (#[trigger] q2[i]).edge_id) by { assert(has_edge(g, q[i].edge_id)); }
+    assert forall|i: int| 0 <= i < q2.len() - 1 implies #[trigger] e_dst(g, q2[i]) == e_src(g, q2[i + 1]) by { assert(q2[i].edge_id == q[i].edge_id); assert(q2[i + 1].edge_id == q[i + 1].edge_id); assert(e_dst(g, q[i]) == e_src(g, q[i + 1])); }
+    if q.len() > 0 { assert(q2[0].edge_id == q[0].edge_id); assert(q2.last().edge_id == q.last().edge_id); }
+}
+/// root prefix of a chained route followed by the re-traversed spur path is chained
+pub proof fn lemma_chained_join(si: &SearchInstance, prev: Seq<EdgeTraversal>, n: int, ids: Seq<EdgeId>, res: Seq<EdgeTraversal>)
+    requires chained(si, prev), 1 <= n <= prev.len(), reoriented(si, last_id(prev.take(n)), last_state(si, prev.take(n)), ids, res)
+    ensures chained(si, prev.take(n) + res)
+{
+    let p = prev.take(n); let w = p + res;
+    assert forall|j: int| 1 <= j < w.len() implies #[trigger] link_ok(si, w, j) by {
+        if j < n { assert(link_ok(si, prev, j)); assert(w[j] == prev[j]); assert(w[j - 1] == prev[j - 1]); }
+        else {
+            let i = j - n;
+            assert(step_ok(si, last_id(p), last_state(si, p), ids, res, i));
+            assert(w[j] == res[i]);
+            if i == 0 { assert(w[j - 1] == p[n - 1]); assert(p.last() == p[n - 1]); }
+            else { assert(step_ok(si, last_id(p), last_state(si, p), ids, res, i - 1)); assert(w[j - 1] == res[i - 1]); }
+        }
+    }
 }
 """
 
@@ -194,7 +248,9 @@ def build(x):
     f.rewrite(r"&crate::algorithm::search::direction::Direction::Forward", "&Direction::Forward", 2, 2, rule="R-path")
     f.rewrite(r"let root_path = prev_accepted_path\.iter\(\)\.take\(spur_len\)\.collect_vec\(\);", "let root_path = verif_take_refs(&prev_accepted_path, spur_len);", 1, 1, rule="R-collect")
     f.rewrite(r"let accepted_path_root = accepted_path\.iter\(\)\.take\(spur_len\)\.collect_vec\(\);", "let accepted_path_root = verif_take_refs(accepted_path, spur_len);", 1, 1, rule="R-collect")
-    f.rewrite(r"let candidate_path = root_path\s*\.into_iter\(\)\s*\.chain\(spur_path\)\s*\.cloned\(\)\s*\.collect_vec\(\);", "let candidate_path = verif_chain_cloned(root_path, spur_path);", 1, 1, rule="R-collect")
+    f.rewrite(r"let root_route = root_path\.iter\(\)\.map\(\|e\| \(\*e\)\.clone\(\)\)\.collect_vec\(\);", "let root_route = verif_clone_refs(&root_path);", 1, 1, rule="R-collect")
+    f.rewrite(r"let spur_backward = spur_path\.iter\(\)\.rev\(\)\.cloned\(\)\.collect_vec\(\);", "let spur_backward = verif_rev_cloned(spur_path);", 1, 1, rule="R-collect")
+    f.rewrite(r"let candidate_path = root_route\.into_iter\(\)\.chain\(spur_route\)\.collect_vec\(\);", "let candidate_path = verif_chain(root_route, spur_route);", 1, 1, rule="R-collect")
     f.rewrite(r"&candidate_path\.iter\(\)\.collect_vec\(\);", "&verif_refs(&candidate_path);", 1, 1, rule="R-collect")
     f.rewrite(r"&test_path\.iter\(\)\.collect_vec\(\),", "&verif_refs(test_path),", 1, 1, rule="R-collect")
     f.rewrite(r"candidate_test_path\.iter\(\)\.map\(\|e\| e\.total_cost\(\)\)\.sum\(\);", "verif_sum_cost(candidate_test_path);", 1, 1, rule="R-collect")
@@ -217,8 +273,10 @@ def build(x):
         &&& all_walks(g, query.source, query.target, res.routes@)
         // no alternative leaves a vertex twice
         &&& forall|j: int| 1 <= j < res.routes@.len() ==> !has_loop(g, (#[trigger] res.routes@[j])@)
+        // C03 / C13: every route reports the state accumulated along ITS OWN edges (each edge traversed after the edge actually before it)
+        &&& forall|j: int| 0 <= j < res.routes@.len() ==> chained(si, (#[trigger] res.routes@[j])@)
     }),""")
-    f.insert_before(r"let mut iterations: u64 = 1;", """    proof { assert(accepted@.len() == 1); assert(accepted@[0]@ =~= shortest.routes@[0]@); }
+    f.insert_before(r"let mut iterations: u64 = 1;", """    proof { assert(accepted@.len() == 1); assert(accepted@[0]@ =~= shortest.routes@[0]@); assert(chained(si, accepted@[0]@)); }
     let ghost g = &*si.directed_graph;
     // C10: ghost log of the spur searches' outcomes -- true = returned a result or "no path"; anything else (a TERMINATED search in particular) must end the query
     let ghost mut log: Seq<bool> = Seq::empty();""")
@@ -226,6 +284,7 @@ def build(x):
             1 <= accepted@.len() <= (if query.k >= 1 { query.k as int } else { 1int }), g == &*si.directed_graph,
             all_walks(g, query.source, query.target, accepted@), iterations >= 1,
             forall|j: int| 1 <= j < accepted@.len() ==> !has_loop(g, (#[trigger] accepted@[j])@),
+            forall|j: int| 0 <= j < accepted@.len() ==> chained(si, (#[trigger] accepted@[j])@),
             forall|i: int| 0 <= i < log.len() ==> #[trigger] log[i],
         decreases query.k - accepted@.len(),""")
     f.insert_before(r"let verif_end: usize = ", """        proof { assert(accepted@.last() == accepted@[accepted@.len() - 1]); }
@@ -234,26 +293,35 @@ def build(x):
 """, count=1)
     f.add_loop_spec(2, """            invariant
                 accepted@ == acc0, g == &*si.directed_graph, walk(g, query.source, query.target, prev_accepted_path@), all_walks(g, query.source, query.target, acc0),
+                chained(si, prev_accepted_path@),
                 0 <= verif_s <= verif_end, verif_end + 2 <= prev_accepted_path@.len() || verif_end == 0,
                 it0 as int + prev_accepted_path@.len() < u64::MAX, it0 <= iterations, iterations as int <= it0 as int + verif_s, it0 >= 1,
-                best_candidate matches Some(bc) ==> walk(g, query.source, query.target, bc.0@) && !has_loop(g, bc.0@),
+                best_candidate matches Some(bc) ==> walk(g, query.source, query.target, bc.0@) && !has_loop(g, bc.0@) && chained(si, bc.0@),
                 forall|i: int| 0 <= i < log.len() ==> #[trigger] log[i],
             decreases verif_end - verif_s,""")
     f.loop_body_start(2, "            let ghost bc0 = best_candidate;")
     f.add_loop_spec(3, """                invariant 0 <= verif_a <= accepted@.len(), accepted@ == acc0, spur_idx < verif_end,
                 decreases accepted@.len() - verif_a,""")
-    f.insert_after(r"let candidate_path = verif_chain_cloned\(root_path, spur_path\);", """            proof {
+    f.insert_after(r"let candidate_path = verif_chain\(root_route, spur_route\);", """            proof {
                 let n = spur_len as int;
                 lemma_walk_prefix(g, query.source, query.target, prev_accepted_path@, n);
                 assert(root0 == prev_accepted_path@.take(n));
                 assert(spur_vertex_id == e_dst(g, prev_accepted_path@[n - 1]));
                 assert(walk(&*yens_si.directed_graph, spur_vertex_id, query.target, spur_path@));
-                lemma_walk_join(g, query.source, spur_vertex_id, query.target, root0, spur_path@);
+                // the re-traversed spur path has the spur path's edge ids, in the same order
+                assert forall|i: int| 0 <= i < spur_path@.len() implies (#[trigger] spur0[i]).edge_id == spur_path@[i].edge_id by {
+                    assert(step_ok(si, last_id(root0), last_state(si, root0), rev_ids(back0), spur0, i));
+                    assert(rev_ids(back0)[i] == back0[back0.len() - 1 - i].edge_id);
+                }
+                lemma_walk_same_ids(g, spur_vertex_id, query.target, spur_path@, spur0);
+                lemma_walk_join(g, query.source, spur_vertex_id, query.target, root0, spur0);
+                lemma_chained_join(si, prev_accepted_path@, n, rev_ids(back0), spur0);
                 assert(walk(g, query.source, query.target, candidate_path@));
+                assert(chained(si, candidate_path@));
             }""")
-    f.insert_before(r"let candidate_path = verif_chain_cloned\(root_path, spur_path\);", "            let ghost root0 = derefs(root_path@);")
-    f.add_loop_spec(4, """                invariant 0 <= verif_t <= accepted@.len(), accepted@ == acc0, walk(g, query.source, query.target, candidate_path@), !has_loop(g, candidate_path@),
-                    best_candidate matches Some(bc) ==> walk(g, query.source, query.target, bc.0@) && !has_loop(g, bc.0@),
+    f.insert_before(r"let candidate_path = verif_chain\(root_route, spur_route\);", "            let ghost root0 = root_route@; let ghost back0 = spur_backward@; let ghost spur0 = spur_route@;")
+    f.add_loop_spec(4, """                invariant 0 <= verif_t <= accepted@.len(), accepted@ == acc0, walk(g, query.source, query.target, candidate_path@), !has_loop(g, candidate_path@), chained(si, candidate_path@),
+                    best_candidate matches Some(bc) ==> walk(g, query.source, query.target, bc.0@) && !has_loop(g, bc.0@) && chained(si, bc.0@),
                 decreases accepted@.len() - verif_t,""")
     parts.append(f.text + "\n")
     parts.append("""
